@@ -113,7 +113,19 @@ func malformSection(r *core.Rand, sec []byte) ([]byte, string) {
 		return sealSection([]byte{byte(r.Range(1, 7))}), "claims-filters-but-empty"
 	}
 	payload := append([]byte(nil), sec[:len(sec)-4]...)
-	switch r.Intn(8) {
+	switch r.Intn(9) {
+	case 8:
+		// a filter whose header is self-consistent (m = bitset length = X, k <= m) but whose word
+		// count is whatever it is: header-only, one word, the real words; X at the uint64 edges
+		x := uint64(core.Pick(r, []int64{-1, -63, -64, -65, 1 << 62, 1 << 40, 64, 65, 1, 0}))
+		enc := make([]byte, 24+8*core.Pick(r, []int{0, 0, 1, 2}))
+		binary.BigEndian.PutUint64(enc[0:], x)
+		binary.BigEndian.PutUint64(enc[8:], uint64(core.Pick(r, []int64{1, 3, 0})))
+		binary.BigEndian.PutUint64(enc[16:], x)
+		var lp [4]byte
+		binary.LittleEndian.PutUint32(lp[:], uint32(len(enc)))
+		out := append([]byte{1}, lp[:]...)
+		return sealSection(append(out, enc...)), fmt.Sprintf("self-consistent-bloom-header(m=%d,words=%d)", x, (len(enc)-24)/8)
 	case 0:
 		payload[0] |= byte(8 << uint(r.Intn(5)))
 		return sealSection(payload), "unknown-flag-bit"
@@ -171,7 +183,13 @@ func malformRows(r *core.Rand, plain []byte) ([]byte, string) {
 		for j := 0; j < k; j++ {
 			pos += 4 + len(rows[j])
 		}
-		binary.LittleEndian.PutUint32(out[pos:], uint32(core.Pick(r, []int64{int64(len(plain)), int64(len(plain)) + 1, 1 << 31, 1<<32 - 1, int64(len(rows[k])) + 1})))
+		if r.Intn(5) == 0 {
+			// one byte too long: the frame swallows the first byte of the next prefix (the framed
+			// bytes are then not a written row; only the no-panic/allocation oracles apply)
+			binary.LittleEndian.PutUint32(out[pos:], uint32(len(rows[k])+1))
+			return out, "row-length-long-by-one"
+		}
+		binary.LittleEndian.PutUint32(out[pos:], uint32(core.Pick(r, []int64{int64(len(plain)), int64(len(plain)) + 1, 1 << 31, 1<<32 - 1})))
 		return out, "row-length-overruns"
 	case 1:
 		return plain[:len(plain)-r.Range(1, min(len(plain)-1, len(rows[len(rows)-1])))], "last-row-cut"
@@ -227,7 +245,7 @@ func deepMutation(r *core.Rand, b *c19Base) (mut []byte, what string, rowsIntact
 			return nil, "", false, false
 		}
 		p.plain[bi], p.disk[bi] = pl, d
-		intact := what != "last-row-cut" && what != "row-length-short-by-one"
+		intact := what != "last-row-cut" && what != "row-length-short-by-one" && what != "row-length-long-by-one"
 		return p.assemble(nil), fmt.Sprintf("deep:block%d.rows:%s", bi, what), intact, true
 	case 2:
 		sec, what := malformSection(r, p.sections[bi])
